@@ -144,6 +144,57 @@ def gen_tree(rng, **kw):
     return TreeGen(rng, **kw).gen()
 
 
+AMR_REIFS = [(':mod', 'have-mod-91', ':ARG1', ':ARG2'), (':location', 'be-located-at-91', ':ARG1', ':ARG2'),
+             (':poss', 'own-01', ':ARG1', ':ARG0'), (':quant', 'have-quant-91', ':ARG1', ':ARG2'),
+             (':beneficiary', 'benefit-01', ':ARG0', ':ARG1'), (':polarity', 'have-polarity-91', ':ARG1', ':ARG2'),
+             (':time', 'be-temporally-at-91', ':ARG1', ':ARG2'), (':name', 'have-name-91', ':ARG1', ':ARG2')]
+
+
+def reified_tree(rng):
+    """a tree containing written-out reified relations (collapsible nodes) followed by further
+    branches, re-entrancies and reifiable plain relations: exercises dereify then reify"""
+    vs = ['a', 'b', 'c', 'd', 'e']
+    used = ['a']
+    counter = [0]
+
+    def fresh():
+        for v in vs:
+            if v not in used:
+                used.append(v)
+                return v
+        counter[0] += 1
+        v = 'x%d' % counter[0]
+        used.append(v)
+        return v
+
+    def node(var, depth):
+        bs = [('/', rng.choice(['alpha', 'beta', 'gamma', 'delta']))]
+        for _ in range(rng.randint(1, 3)):
+            k = rng.random()
+            role, concept, sr, tr = rng.choice(AMR_REIFS)
+            if k < 0.4 and depth < 3:
+                rv = '_' if '_' not in used else '_%d' % (len(used) + 1)
+                used.append(rv)
+                if maybe(rng, 0.5):
+                    tgt = rng.choice(['7', '-', '"s"'])
+                else:
+                    tv = fresh()
+                    tgt = node(tv, depth + 1) if maybe(rng, 0.7) else rng.choice(used[:-1])
+                inner = [('/', concept + aln(rng, 0.2)), (tr, tgt)]
+                bs.append((sr + '-of', (rv, inner)))
+            elif k < 0.6:
+                bs.append((role + aln(rng, 0.2), rng.choice(used)))          # reifiable re-entrancy
+            elif k < 0.8:
+                bs.append((role, rng.choice(['7', '-', '"s"']) + aln(rng, 0.2)))
+            elif depth < 3:
+                tv = fresh()
+                bs.append((rng.choice([':ARG0', ':ARG1', ':op1']), node(tv, depth + 1)))
+            else:
+                bs.append((':ARG0-of', rng.choice(used)))
+        return (var, bs)
+    return node('a', 0)
+
+
 def gen_metadata(rng):
     md = {}
     for _ in range(rng.choice([0, 0, 0, 1, 1, 2, 3])):
